@@ -501,7 +501,7 @@ func DrawType(t *rapid.T, depth int) *TypeR {
 		}
 		if strings.Contains(form, ",string") {
 			switch f.Kind {
-			case "int", "int64", "float64", "bool", "uint32":
+			case "int", "int64", "float64", "bool", "uint32", "uint64":
 			default:
 				form = ""
 			}
